@@ -202,17 +202,17 @@ func (f *file) ReadAt(p []byte, off int64) (n int, err error) {
 }
 
 func (f *file) ReadBlobAt(length int, off int64) (b blob.Blob, n int, err error) {
-	if off >= int64(f.Size()) {
-		return nil, 0, io.EOF
-	}
-	max := int64(f.Size())
-	end := off + int64(length)
-	if end > max {
-		end = max
-	}
 	data, err := f.Data()
 	if err != nil {
 		return nil, 0, err
+	}
+	max := int64(data.Len())
+	if off >= max {
+		return nil, 0, io.EOF
+	}
+	end := max
+	if int64(length) < max-off {
+		end = off + int64(length)
 	}
 	b, err = blob.View(data, off, end)
 	if err != nil {
